@@ -17,3 +17,6 @@ pub assume_specification<'a, T, A, I> [<std::vec::Vec<T, A> as std::iter::Extend
 // TRUSTED AXIOM (core): a slice never has more than isize::MAX elements (Rust allocation rule).
 pub broadcast axiom fn axiom_slice_len_bound(s: &[u8])
     ensures #[trigger] s@.len() <= 0x7fff_ffff_ffff_ffff;
+// `Vec::into_boxed_slice` keeps the elements
+pub assume_specification<T, A: std::alloc::Allocator> [std::vec::Vec::<T, A>::into_boxed_slice] (v: std::vec::Vec<T, A>) -> (r: std::boxed::Box<[T], A>)
+    ensures r@ == v@;
